@@ -25,7 +25,7 @@ ASSUMPTIONS = [
     "'stopped' is compared between collect/next/fast_forward, not for collect(nexts=n) (an early exit leaves the run unfinished by design)",
 ]
 
-STATE = ("variables", "scan_count", "match_count", "is_valid", "errors", "printouts", "stopped", "unmatched")
+STATE = ("variables", "scan_count", "match_count", "is_valid", "errors", "printouts", "stopped")
 
 
 def budget(tier):
@@ -43,6 +43,12 @@ def _with_collect(draw, base):
         args = [["t", cols[i]["name"]] if draw(st.booleans()) else ["t", i] for i in picks]
         c["prog"]["comps"].insert(draw(st.integers(0, len(c["prog"]["comps"]))), ["f", "collect", [], args])
         c["collect"] = True
+    modes = []
+    # (collect(<headers>) is not combined with mode settings: narrowing the *unmatched* lines of a
+    # ragged file is outside what the statement covers)
+    if not c.get("collect") and draw(st.sampled_from([False, False, False, True])):
+        modes.append(draw(st.sampled_from(["run-mode: no-run", "unmatched-mode: keep", "return-mode: no-matches", "unmatched-mode: keep return-mode: no-matches"])))
+    c["modes"] = modes
     return c
 
 
@@ -66,7 +72,11 @@ def run_case(case, sb):
         sb.write_config(["collect", "print"])
     rel = sb.write_csv("f.csv", records)
     text = common.text_of(case["prog"], rel, case["scan"])
-    labels = ["shape:" + case["shape"]] + (["collect()"] if case.get("collect") else [])
+    if case.get("modes"):
+        # the relation holds under every mode setting
+        meta = (["logic-mode: OR"] if case["prog"].get("mode") == "OR" else []) + case["modes"]
+        text = common.text_of(case["prog"], rel, case["scan"], comment="~ " + " ".join(meta) + " ~ ")
+    labels = ["shape:" + case["shape"]] + ["mode:" + m for m in case.get("modes", [])] + (["collect()"] if case.get("collect") else [])
     A = real.run_path(text, method="collect")
     B = real.run_next_with_snapshots(text)
     C = real.run_path(text, method="fast_forward")
